@@ -56,6 +56,15 @@ pub fn run(ctx: &Ctx) -> Outcome {
         for (ivn, iv) in iv_variants(seed, bs).into_iter().skip(1) {
             let m = SeekMachine { cfg, d, key, iv: &iv, data: &data, init: Init::Fresh, seeks: seeks.clone(), applies: applies.clone(), check_log: true };
             let st = bfs::bfs(&m, &mut rep, depth, tier.pick(4_000, 60_000), &|| ctx.over_cap());
+            // completeness cross-check of the explorer against an independent enumeration of the reference model
+            if rep.violations.is_empty() && !st.capped {
+                let model = m.model_reachable(depth);
+                let found = SeekMachine::positions_of_keys(&st.keys);
+                rep.count("model_states_cross_checked", model.len() as u64);
+                if model != found {
+                    rep.machinery_errors.push(format!("explorer completeness cross-check failed for {} {}: the reference model reaches {} positions, the explorer found {} (first difference: {:?})", cfg.name, d.mode, model.len(), found.len(), model.symmetric_difference(&found).next()));
+                }
+            }
             rep.count("bfs_states", st.states);
             rep.count("bfs_transitions", st.transitions);
             rep.count("bfs_dedup_hits", st.dedup_hits);
